@@ -82,7 +82,9 @@ class Weighting(object):
 
     def __hash__(self):
         """Return ``hash(self)``."""
-        return hash((type(self), self.impl, self.exponent))
+        # `__eq__` does not compare the concrete class, hence the hash
+        # must not depend on it, either
+        return hash((Weighting, self.impl, self.exponent))
 
     def equiv(self, other):
         """Test if ``other`` is an equivalent weighting.
